@@ -385,10 +385,12 @@ func validImpl(bs []byte, withSpec bool) string {
 	if pan != "" {
 		return "panic " + pan
 	}
+	// specd: the depth-limited recogniser Spec/JsonDepth (isJsonD maxNestingDepth), compared with
+	// encoding/json.Valid, which has the same nesting limit
 	if !withSpec {
-		return fmt.Sprintf("valid=%d", b2i(v))
+		return fmt.Sprintf("valid=%d specd=%d", b2i(v), b2i(gojson.Valid(bs)))
 	}
-	return fmt.Sprintf("valid=%d spec=%d", b2i(v), b2i(gojson.Valid(bs)))
+	return fmt.Sprintf("valid=%d spec=%d specd=%d", b2i(v), b2i(gojson.Valid(bs)), b2i(gojson.Valid(bs)))
 }
 
 func compactImpl(bs []byte, esc bool) string {
@@ -966,7 +968,7 @@ func init() {
 	register(&Stream{
 		Name: "json",
 		Run: func(c *Ctx) {
-			c.Rule("generated uGO values (boundary scalars, strings built from escape-sensitive / invalid-UTF-8 pieces, nested arrays/maps, option wrappers, raw messages, unsupported objects) through Marshal; grammar-generated JSON documents, near-valid mutations, fixed edge documents and arbitrary bytes through Valid/Compact/Indent/Unmarshal; model vs implementation on every case (the valid line also compares the RFC 8259 recogniser with encoding/json.Valid); the oracle compares the implementation with encoding/json on the same input; distinct = distinct (operation, outcome class, top-level kind)")
+			c.Rule("generated uGO values (boundary scalars, strings built from escape-sensitive / invalid-UTF-8 pieces, nested arrays/maps, option wrappers, raw messages, unsupported objects) through Marshal; grammar-generated JSON documents, near-valid mutations, fixed edge documents and arbitrary bytes through Valid/Compact/Indent/Unmarshal; model vs implementation on every case (the valid line also compares the RFC 8259 recogniser and its depth-limited variant isJsonD with encoding/json.Valid); the oracle compares the implementation with encoding/json on the same input; distinct = distinct (operation, outcome class, top-level kind)")
 			r := c.R
 			addMarshal := func(v ugo.Object) {
 				line := marshalLine(v)
@@ -1079,7 +1081,7 @@ func init() {
 					addDoc(b, "marshalled")
 				}
 			}
-			// nesting limit (the recogniser of Spec/Json has no depth limit: compare Valid only)
+			// nesting limit (the recogniser of Spec/Json has no depth limit: compare Valid and the depth-limited recogniser isJsonD only)
 			for _, d := range []string{nest("[", "]", 9999, ""), nest("[", "]", 10000, ""), nest("[", "]", 10001, ""), nest("{\"a\":", "}", 10000, "1"),
 				nest("{\"a\":", "}", 10001, "1"), nest("[", "", 10001, ""), nest("[{\"a\":", "}]", 5000, "1"), nest("[{\"a\":", "}]", 5001, "1")} {
 				bs := []byte(d)
